@@ -264,11 +264,7 @@ def runLrParse (j : Json) : Except String Json := do
   let describe (cfg : Config) : Json :=
     let q := cfg.states.headD 0
     let choices := terms.filter fun t => (T.action q t).isSome
-    let accepts := choices.filter fun t =>
-      match reduceLoop T t (t == eof) fuel cfg with
-      | Outcome.error => false
-      | Outcome.crash => false
-      | _ => true
+    let accepts := acceptsOf T terms eof fuel cfg      -- the function `accepts_is_exact` is about
     Json.mkObj [("choices", natArr choices), ("accepts", natArr accepts)]
   let mut cfg : Config := ⟨[T.start], []⟩
   let mut steps : Array Json := #[describe cfg]
